@@ -21,6 +21,10 @@ PROP = 'C09'
 KEY_RT = 'C09:created-vs-expireAll:RuntimeError'
 KEY_LOST = 'C09:created-vs-expireAll:lost-entry'
 KEY_TWO = 'C09:create-vs-get:two-instances'
+# CacheFactory.clear() is lock-free (replayed only once these keys are listed open in known_findings.json)
+KEY_CLEAR_HANG = 'C09:clear-vs-get:hang'
+KEY_CLEAR_EA = 'C09:clear-vs-expireAll:RuntimeError'
+KEY_CLEAR_CULL = 'C09:clear-vs-cull:KeyError'
 
 META = {
     'extractors': ['pycache', 'pycachesteps'],
@@ -49,7 +53,10 @@ META = {
                  'and exercised; an interpreter with delayed / cyclic collection, where an unreferenced instance may die '
                  'later and at any point of another thread, is not modelled',
                  'OS-level starvation / fairness (progress is: some thread is always enabled)',
-                 'CacheFactory.clear(); tryGet(); per-instance _SO_writeLock (never taken '
+                 'tryGet() (the lock-free lookup of Transaction.commit / unpickling) and CacheSet.clear() / clear(cls) are not in '
+                 'the Lean model: they are EXECUTED as extra operations against the modelled ones and judged by the oracle only '
+                 '(no exception, nobody blocked, lock free; identity where clear() is not involved); half of the harness classes '
+                 'have falsy live instances (__len__ == 0); per-instance _SO_writeLock (never taken '
                  'while the cache lock is held, so it cannot take part in a lock cycle with it)',
                  'threading.Lock, sqlite3 (executed, not verified)',
                  'the connection set-up and the DB layer are not in the Lean model: they are EXECUTED - the shared in-memory '
@@ -945,7 +952,12 @@ def oracle(init, progs, r, ptxt=None, tag=None):
         # no-exception / nobody blocked / lock free are left
         expired = _Everything()
 
+    clearers = _threads_with(progs, lambda op: op[0] in ('K', 'Kc'))
+
     def generic(clause):
+        if clearers and clause in ('blocked', 'lock-held') and \
+                _two_threads(clearers, _threads_with(progs, lambda op: op[0] == 'g')):
+            return KEY_CLEAR_HANG
         return 'C09:%s:%s:%s' % (clause, ptxt, tag)
 
     def identity_key(clause):
@@ -1002,7 +1014,11 @@ def oracle(init, progs, r, ptxt=None, tag=None):
             op = progs[t][k]
             if out[1] == 'Integrity' and op[0] == 'c' and (op[1] in init['db'] or n_create.get(op[1], 0) > 1):
                 continue              # duplicate primary key: the database's documented answer
-            if out[1] == 'RuntimeError' and create_vs_expire_all:
+            if out[1] == 'RuntimeError' and op[0] == 'A' and _two_threads(clearers, {t}):
+                key = KEY_CLEAR_EA
+            elif out[1] == 'KeyError' and op[0] == 'C' and _two_threads(clearers, {t}):
+                key = KEY_CLEAR_CULL
+            elif out[1] == 'RuntimeError' and create_vs_expire_all:
                 key = KEY_RT
             else:
                 key = generic('exception-' + out[1])
@@ -1099,6 +1115,24 @@ W_TWO = dict(init=WARM, progs=[[('c', 7)], [('g', 7)]],       # 0: INSERT | 1: w
 W_LOST_ALIAS = dict(init=WARM, progs=[[('c', 7)], [('A',)]],
                     sched=[0, 0, 0, 0, 0] + [1] * 8 + [0, 0], key=KEY_LOST)
 WITNESSES = (('W_RT', W_RT), ('W_LOST', W_LOST), ('W_TWO', W_TWO), ('W_LOST_ALIAS', W_LOST_ALIAS))
+# the lock-free clear() races (unchanged tree): replayed only when their keys are open in known_findings.json
+W_CLEAR = (
+    ('W_CLEAR_HANG', dict(init=WARM, progs=[[('K',)], [('g', 3)]], sched=[0] + [1] * 8 + [0] * 3 + [1] * 30,
+                          key=KEY_CLEAR_HANG)),
+    ('W_CLEAR_EA', dict(init=WARM, progs=[[('K',)], [('A',)]], sched=[0, 1] + [0] * 3 + [1] * 20, key=KEY_CLEAR_EA)),
+    ('W_CLEAR_CULL', dict(init=WARM, progs=[[('K',)], [('C',)]], sched=[0, 1, 1, 1] + [0] * 3 + [1] * 20,
+                          key=KEY_CLEAR_CULL)),
+)
+
+
+def open_known_keys():
+    try:
+        path = os.path.join(os.path.dirname(os.path.dirname(os.path.abspath(__file__))), 'known_findings.json')
+        return set(k['key'] for k in json.load(open(path))['findings']
+                   if k.get('property') == PROP and k.get('status') == 'open')
+    except Exception:
+        return set()
+
 
 CORPUS_DIR = os.path.join(os.path.dirname(os.path.dirname(os.path.abspath(__file__))), 'corpus', 'C09')
 
@@ -1288,7 +1322,8 @@ def run(ctx):
         run_.one(init, progs, sched)
 
     # 2. the known findings, replayed
-    for name, w in WITNESSES:
+    listed = open_known_keys()
+    for name, w in WITNESSES + tuple(x for x in W_CLEAR if x[1]['key'] in listed):
         r, fails = run_.one(w['init'], w['progs'], w['sched'])
         if r is not None and w['key'] not in [k for k, _ in fails]:
             ctx.note('witness %s (%s, schedule %s) no longer reproduces %s on the real code: outcome %s'
